@@ -151,7 +151,7 @@ inductive Keying
   deriving DecidableEq, Repr
 
 /-- the keying of the code as it is now (tied to the key expressions of `indexCache.get` in Proofs/C04Glue) -/
-def implKeying : Keying := .legacy
+def implKeying : Keying := .byMode
 
 structure MemoKey where
   url : Text
